@@ -137,8 +137,10 @@ func (o *FSObs) hook(op, path string, off int64, data []byte) (bool, int, error)
 				fmt.Fprintf(os.Stderr, "fs   ^ injected fault, partial=%d\n", partial)
 			}
 			if op == "write" && partial > 0 {
-				if partial > len(data) {
-					partial = len(data)
+				// a failed write is strictly partial: a write that put every
+				// byte in place does not report an error
+				if partial >= len(data) {
+					partial = len(data) - 1
 				}
 				// perform the partial write ourselves (page cache is coherent
 				// with a MAP_SHARED mapping of the same file)
